@@ -32,6 +32,8 @@ type C18Case struct {
 	// Engines > 1: that many Gengine objects execute the freshly built RuleBuilder at the same
 	// moment (released by a barrier); no child fails and no gate is used in this mode.
 	Engines int `json:"engines,omitempty"`
+	// OneLine: the children of every conc block are written on one source line
+	OneLine bool `json:"one_line,omitempty"`
 }
 
 type c18Host struct{ F0, F1, F2, F3, F4, F5, F6, F7 int64 }
@@ -145,7 +147,28 @@ func (c *C18Case) text() string {
 		}
 	}
 	b.WriteString("  E(@name)\n  return 1\nend\n")
-	return b.String()
+	text := b.String()
+	if c.OneLine {
+		// "  conc {\n    a\n    b\n  }\n"  ->  "  conc { a b }\n"
+		var out strings.Builder
+		in := false
+		for _, ln := range strings.SplitAfter(text, "\n") {
+			switch {
+			case strings.HasPrefix(ln, "  conc {"):
+				in = true
+				out.WriteString("  conc {")
+			case in && strings.HasPrefix(ln, "  }"):
+				in = false
+				out.WriteString(" }\n")
+			case in:
+				out.WriteString(" " + strings.TrimSpace(ln))
+			default:
+				out.WriteString(ln)
+			}
+		}
+		text = out.String()
+	}
+	return text
 }
 
 func (o *c18Obj) Bad(id int64) int64 { o.act(-id); panic("injected method failure") }
@@ -222,6 +245,7 @@ func init() {
 				}
 				c.Blocks = append(c.Blocks, blk)
 			}
+			c.OneLine = pct(t, "one_line", 20)
 			if failBlock < 0 && !c.Pool && pct(t, "multi_engine", 15) {
 				c.Engines = uni(t, "engines", 2, 8)
 			}
